@@ -72,7 +72,7 @@ func (tr *trans) instr(in ssa.Instruction, st State) {
 		ref := tr.newRef(st)
 		et := x.Type().Underlying().(*types.Slice).Elem()
 		h := tr.arrHeap(et)
-		tr.setState(st, h, store(tr.getState(st, h), ref, fmt.Sprintf("((as const (Array Int %s)) %s)", tr.vc.sortOf(et), tr.vc.zero(et))))
+		tr.setState(st, h, store(tr.getState(st, h), ref, fmt.Sprintf("((as const (Array Int %s)) %s)", tr.vc.sortOf(et), tr.vc.zero(et))), ref)
 		ln, cp := tr.val(x.Len), tr.val(x.Cap)
 		tr.panicCheck("makeslice:"+tr.srcText(x.Pos()), and(app("<=", "0", ln), app("<=", ln, cp)), x.Pos())
 		tr.setVal(x, fmt.Sprintf("(mkSlice %s 0 %s %s)", ref, ln, cp))
@@ -81,8 +81,8 @@ func (tr *trans) instr(in ssa.Instruction, st State) {
 		mt := x.Type().Underlying().(*types.Map)
 		hd, hl := tr.mapHeap(mt, "dom"), tr.mapHeap(mt, "len")
 		tr.mapHeap(mt, "val")
-		tr.setState(st, hd, store(tr.getState(st, hd), ref, fmt.Sprintf("((as const (Array %s Bool)) false)", tr.vc.sortOf(mt.Key()))))
-		tr.setState(st, hl, store(tr.getState(st, hl), ref, "0"))
+		tr.setState(st, hd, store(tr.getState(st, hd), ref, fmt.Sprintf("((as const (Array %s Bool)) false)", tr.vc.sortOf(mt.Key()))), ref)
+		tr.setState(st, hl, store(tr.getState(st, hl), ref, "0"), ref)
 		tr.setVal(x, ref)
 	case *ssa.MakeChan:
 		ref := tr.newRef(st)
@@ -179,6 +179,10 @@ func fieldName(x *ssa.FieldAddr) string {
 func (tr *trans) newRef(st State) Term {
 	ref := tr.vc.fresh("ref")
 	tr.vc.define(ref, "Int", tr.getState(st, "$next"))
+	if tr.curB != nil {
+		tr.termBlock[ref] = tr.curB.Index
+		tr.termFresh[ref] = true
+	}
 	tr.setState(st, "$next", app("+", ref, "1"))
 	return ref
 }
@@ -450,7 +454,7 @@ func (tr *trans) convert(x *ssa.Convert, st State) {
 		arr := tr.vc.fresh("bytes")
 		tr.vc.declConst(arr, "(Array Int Int)")
 		tr.vc.assume(fmt.Sprintf("(forall ((i Int)) (! (=> (and (<= 0 i) (< i (slen %s))) (= (select %s i) (sat %s i))) :pattern ((select %s i))))", v, arr, v, arr))
-		tr.setState(st, h, store(tr.getState(st, h), ref, arr))
+		tr.setState(st, h, store(tr.getState(st, h), ref, arr), ref)
 		tr.setVal(x, fmt.Sprintf("(mkSlice %s 0 (slen %s) (slen %s))", ref, v, v))
 		if b, ok := et.Underlying().(*types.Basic); !ok || b.Kind() != types.Uint8 {
 			tr.warnf("string to %s conversion: runes modelled as bytes", typeKey(to))
@@ -569,10 +573,10 @@ func (tr *trans) mapUpdate(x *ssa.MapUpdate, st State) {
 	dom := tr.getState(st, hd)
 	was := sel(sel(dom, m), k)
 	ln := tr.getState(st, hl)
-	tr.setState(st, hl, store(ln, m, ite(was, sel(ln, m), app("+", sel(ln, m), "1"))))
-	tr.setState(st, hd, store(dom, m, store(sel(dom, m), k, "true")))
+	tr.setState(st, hl, store(ln, m, ite(was, sel(ln, m), app("+", sel(ln, m), "1"))), m)
+	tr.setState(st, hd, store(dom, m, store(sel(dom, m), k, "true")), m)
 	val := tr.getState(st, hv)
-	tr.setState(st, hv, store(val, m, store(sel(val, m), k, v)))
+	tr.setState(st, hv, store(val, m, store(sel(val, m), k, v)), m)
 }
 
 // ---------------------------------------------------------------- range over maps and strings
